@@ -255,7 +255,9 @@ func verifyAll(r *mon.Run, sc *scenario, b *bundle.Bundle, t time.Time, class, m
 		if vs.Authority < uint64(len(b.Signatures.Authorities)) {
 			if pub, isEC := b.Signatures.Authorities[vs.Authority].Cert.PublicKey.(*ecdsa.PublicKey); isEC {
 				msg := append(append([]byte(strings.Repeat(" ", 64)+"Web Package 1 "+string(b.Version)), 0), vs.Signed...)
-				ok = rsxg.Verify(pub, msg, vs.Sig)
+				// (encoding-agnostic: a signature is judged by the (r, s) it carries; how strictly its DER is parsed is not what
+				// the property is about - no encoding leniency can authenticate altered content)
+				ok = rsxg.VerifyLenient(pub, msg, vs.Sig)
 			}
 		}
 		if !ok {
@@ -508,7 +510,9 @@ func run(r *mon.Run) {
 					}
 					e.Response.Header[name] = v
 				})
-				mutEx("header-value-appended="+name, func(e *bundle.Exchange) { e.Response.Header[name] = append(append([]string{}, e.Response.Header[name]...), "extra") })
+				mutEx("header-value-appended="+name, func(e *bundle.Exchange) {
+					e.Response.Header[name] = append(append([]string{}, e.Response.Header[name]...), "extra")
+				})
 				mutEx("header-removed="+name, func(e *bundle.Exchange) { delete(e.Response.Header, name) })
 				mutEx("header-renamed="+name, func(e *bundle.Exchange) {
 					e.Response.Header[name+"-2"] = e.Response.Header[name]
@@ -586,6 +590,11 @@ func run(r *mon.Run) {
 			})
 			mutSig(fmt.Sprintf("sig-extended#%d", k), func(s *bundle.Signatures) { s.VouchedSubsets[k].Sig = append(s.VouchedSubsets[k].Sig, 0) })
 			mutSig(fmt.Sprintf("sig-empty#%d", k), func(s *bundle.Signatures) { s.VouchedSubsets[k].Sig = nil })
+			// the same (r, s) in another encoding: changed signature bytes must not verify
+			for name, v := range gen.DERVariants(rb.Signatures.VouchedSubsets[k].Sig) {
+				v := v
+				mutSig(fmt.Sprintf("sig-reencoded=%s#%d", name, k), func(s *bundle.Signatures) { s.VouchedSubsets[k].Sig = v })
+			}
 			for b := 0; b < 6; b++ {
 				bit := g.Intn(8 * len(rb.Signatures.VouchedSubsets[k].Sig))
 				mutSig(fmt.Sprintf("sig-bit@%d#%d", bit, k), func(s *bundle.Signatures) { s.VouchedSubsets[k].Sig[bit/8] ^= 1 << uint(bit%8) })
